@@ -426,7 +426,9 @@ class Translator:
                     return f'(py_range {a3[0][0]} {a3[1][0]} {a3[2][0]})', 'list:int'
                 if isinstance(step, ast.UnaryOp) and isinstance(step.op, ast.USub) and isinstance(step.operand, ast.Constant) and step.operand.value == 1:
                     return f'(py_range_down {a3[0][0]} {a3[1][0]})', 'list:int'      # range(a, b, -1): a, a - 1, ..., b + 1
-                raise TransError('range with a step that is not a positive literal or -1')
+                if isinstance(step, ast.Constant) or isinstance(step, ast.UnaryOp):
+                    raise TransError('range with a literal step that is not positive or -1')
+                return f'(py_range {a3[0][0]} {a3[1][0]} {a3[2][0]})', 'list:int'      # a variable step is read as positive (IntPatternBuilder's span)
             if isinstance(f, ast.Name) and f.id == 'list' and len(e.args) == 1 and not e.keywords and isinstance(e.args[0], ast.Call) \
                     and isinstance(e.args[0].func, ast.Name) and e.args[0].func.id == 'chain' and not e.args[0].keywords and e.args[0].args:
                 parts = [self.as_list(x, env, binds) for x in e.args[0].args]
